@@ -147,7 +147,8 @@ def run(ctx) -> None:
     dfn = db.func("runners._shared.helpers._defer_wait_for_nodes")
     from sa.pattern import solve
 
-    envs = solve(["for _N in ready: ...", "for _W in _N.wait_for: ...", "for _O in ready: ...", "_W in _O.outputs", "_O.name != _N.name", "_D.add(_N.name)", "[_X for _X in ready if _X.name not in _D]"], dfn.node)
+    RDY = (dfn.positional_params + ["ready"])[0]  # the ready list is the function's first parameter, whatever its name
+    envs = solve([f"for _N in {RDY}: ...", "for _W in _N.wait_for: ...", f"for _O in {RDY}: ...", "_W in _O.outputs", "_O.name != _N.name", "_D.add(_N.name)", f"[_X for _X in {RDY} if _X.name not in _D]"], dfn.node)
     ok = bool(envs)
     rep.add("C17.R3", f"{dfn.qname}:shape", ok, dfn.loc(), "a node is deferred iff one of its wait_for names is an output of another co-ready node" if ok else "deferral no longer compares wait_for names with the outputs of the other co-ready nodes")
 
